@@ -23,8 +23,8 @@ def scale_rows(c, J):
     return [[ci * x for x in r] for ci, r in zip(c, J)]
 
 
-def gen_c(rng, m):
-    return [F(2) ** rng.randint(-10, 10) for _ in range(m)]
+def gen_c(rng, m, hi=10):
+    return [F(2) ** rng.randint(-10, hi) for _ in range(m)]
 
 
 def lincomb(a, x, b, y):
@@ -35,7 +35,7 @@ def exact_family(chk, rng, n_cases, found):
     for i in range(n_cases):
         name = EXACT[i % len(EXACT)]
         cat = rng.choice(["generic", "conflict", "conflict", "antiparallel", "dup_rows", "rank_def", "one_row"])
-        J, cat = A.gen_matrix(rng, cat=cat, mmax=4, nmax=5, scale_exp=[-46, 0, 40, -4, 0, 3][(i // len(EXACT)) % 6])   # every aggregator at every scale
+        J, cat = A.gen_matrix(rng, cat=cat, mmax=4, nmax=5, scale_exp=[-46, -36, 40, 0, -4, 3][(i // len(EXACT)) % 6])   # every aggregator at every scale
         if name in ("ConFIG", "PCGrad") and any(all(x == 0 for x in r) for r in J):
             continue
         m = len(J)
@@ -47,8 +47,10 @@ def exact_family(chk, rng, n_cases, found):
             # found by the thorough run with seed 11 on the unchanged tree, skipped and counted
             chk.note("skipped_config_discontinuity")
             continue
-        c1, c2 = gen_c(rng, m), gen_c(rng, m)
-        a, b = F(2) ** rng.randint(-3, 3), F(rng.randint(1, 7), 4)
+        # at the tiny global scale the row factors stay <= 1, so that EVERY row norm is below 1e-12
+        tiny = [-46, -36, 40, 0, -4, 3][(i // len(EXACT)) % 6] == -46
+        c1, c2 = gen_c(rng, m, 0 if tiny else 10), gen_c(rng, m, 0 if tiny else 10)
+        a, b = (F(2) ** rng.randint(-3, 0), F(rng.randint(1, 4), 4)) if tiny else (F(2) ** rng.randint(-3, 3), F(rng.randint(1, 7), 4))
         c3 = [a * x + b * y for x, y in zip(c1, c2)]
         c = {"name": name, "params": p, "J": J, "cat": cat}
         chk.count(R.case_json(c) | {"c1": A.jsonable(c1), "c2": A.jsonable(c2), "a": str(a), "b": str(b)},
@@ -98,6 +100,15 @@ def upgrad_ladder(chk, rng, n_cases, found):
         ne = rng.choice([F(1, 10 ** 4), F(1, 10 ** 2), F(1, 20), F(1, 10 ** 4)])
         if smin < 4 * float(ne):
             ne = F(1, 10 ** 4)
+        if i % 2 == 0:
+            # not left to chance: put norm_eps BETWEEN the second singular value of one of the scaled matrices
+            # and the smallest of the three largest ones (norm_eps is compared with sigma_max only)
+            import numpy as np
+            s2 = min(float(np.linalg.svd(np.array([[float(x) for x in r] for r in scale_rows(cc, J)]),
+                                         compute_uv=False)[1]) for cc in (c1, c2, c3))
+            if 0 < s2 < smin / 64:
+                ne = F(math.sqrt(s2 * smin / 4)).limit_denominator(10 ** 12)
+                chk.note("upgrad_norm_eps_between_singular_values")
         for re_ in ladder + [F(1, 10 ** 16)]:
             p = {"pref": pref, "norm_eps": ne, "reg_eps": re_}
             outs, dens = [], []
@@ -164,7 +175,7 @@ def run(chk):
     R.report_corr(chk, dis, found)
     chk.cov["rule"] = ("Mean, Sum, Constant, ConFIG, PCGrad and Random (fixed seed): three related "
                        "positive scalings c1, c2, a c1 + b c2 with entries 2^-10..2^10 on conflicting / "
-                       "generic / rank-deficient matrices at global scales 2^-46..2^40 (row norms from "
+                       "generic / rank-deficient matrices at global scales 2^-46, 2^-36 (row norms straddling 1e-12), ... 2^40 (row norms from "
                        "1e-17 to 1e16), f32 and f64; UPGrad: full-row-rank conflicting "
                        "matrices on the reg_eps ladder 1e-2..1e-12 and 1e-16; non-trivial = more than "
                        "one row")
